@@ -170,11 +170,7 @@ pub fn parse_log(log: &str) -> (Vec<Injected>, Vec<Call>, bool) {
     (inj, calls, handshake)
 }
 
-pub fn run(env: &Env, spec: &RunSpec) -> Observed {
-    let base = &env.scratch;
-    let _ = fs::remove_dir_all(base);
-    let cwd = base.join("cwd");
-    fs::create_dir_all(&cwd).unwrap_or_else(|e| simcommon::harness_error(&format!("scratch: {}", e)));
+fn lay_out(cwd: &Path, spec: &RunSpec) {
     for d in &spec.dirs {
         let _ = fs::create_dir_all(cwd.join(d));
     }
@@ -183,25 +179,51 @@ pub fn run(env: &Env, spec: &RunSpec) -> Observed {
         if let Some(parent) = fp.parent() {
             let _ = fs::create_dir_all(parent);
         }
-        if let Err(e) = fs::write(&fp, c) {
-            simcommon::harness_error(&format!("cannot prepare {}: {}", fp.display(), e));
-        }
+        // in a history two layouts may disagree (a file where the other wants a
+        // directory): the first one wins, the model reads the real tree anyway
+        let _ = fs::write(&fp, c);
     }
     for (p, _) in &spec.fifos {
         let fp = cwd.join(p);
         if let Some(parent) = fp.parent() {
             let _ = fs::create_dir_all(parent);
         }
+        if fp.exists() {
+            continue;
+        }
         let ok = Command::new("mkfifo").arg(&fp).status().map(|s| s.success()).unwrap_or(false);
         if !ok {
             simcommon::harness_error(&format!("mkfifo {} failed", fp.display()));
         }
     }
+}
+
+pub fn run(env: &Env, spec: &RunSpec) -> Observed {
+    let base = &env.scratch;
+    let _ = fs::remove_dir_all(base);
+    let cwd = base.join("cwd");
+    fs::create_dir_all(&cwd).unwrap_or_else(|e| simcommon::harness_error(&format!("scratch: {}", e)));
+    // earlier invocations in the same directory (history), not judged
+    for p in &spec.prior {
+        lay_out(&cwd, p);
+    }
+    lay_out(&cwd, spec);
+    for (i, p) in spec.prior.iter().enumerate() {
+        let _ = invoke(env, p, &cwd, &format!("prior{}", i));
+    }
     let before = snapshot(&cwd);
-    let out_p = base.join("stdout");
-    let err_p = base.join("stderr");
-    let log_p = base.join("log");
-    let in_p = base.join("stdin");
+    let mut obs = invoke(env, spec, &cwd, "main");
+    obs.before = before;
+    obs
+}
+
+fn invoke(env: &Env, spec: &RunSpec, cwd: &Path, tag: &str) -> Observed {
+    let base = &env.scratch;
+    let cwd = cwd.to_path_buf();
+    let out_p = base.join(format!("stdout-{}", tag));
+    let err_p = base.join(format!("stderr-{}", tag));
+    let log_p = base.join(format!("log-{}", tag));
+    let in_p = base.join(format!("stdin-{}", tag));
     let stdin = match &spec.stdin {
         Some(_) if spec.stdin_pipe => Stdio::piped(),
         Some(b) => {
@@ -216,10 +238,11 @@ pub fn run(env: &Env, spec: &RunSpec) -> Observed {
     }
     plan.push_str(&format!("rand:{}", spec.rand_seed));
     let mut cmd = Command::new(&env.cli);
-    cmd.args(spec.argv())
-        .current_dir(&cwd)
-        .env_clear()
-        .env("LD_PRELOAD", &env.interposer)
+    cmd.args(spec.argv()).current_dir(&cwd).env_clear();
+    for (k, v) in &spec.env {
+        cmd.env(k, v);
+    }
+    cmd.env("LD_PRELOAD", &env.interposer)
         .env("VERIF_FAULTS", &plan)
         .env("VERIF_LOG", &log_p)
         .env("RUST_BACKTRACE", "0")
@@ -310,7 +333,7 @@ pub fn run(env: &Env, spec: &RunSpec) -> Observed {
         stdout: fs::read(&out_p).unwrap_or_default(),
         stderr: fs::read(&err_p).unwrap_or_default(),
         log,
-        before,
+        before: Tree::new(),
         after: snapshot(&cwd),
         injected,
         calls,
